@@ -16,6 +16,8 @@ enum CK {
     LongColour,
     LongPage,
     Invisible,
+    /// an invisible cell that still carries a character, colours and other attribute flags (what is left of an erased cell)
+    InvisibleFlags,
     TranspFg,
     TranspBg,
     Attr(u16, bool),
@@ -34,13 +36,14 @@ fn ck_char(k: CK) -> AttributedChar {
         CK::LongColour => mk(b'B' as u32, 256, 299, 0, 0),
         CK::LongPage => mk(b'C' as u32, 1, 2, 300, 0b10_0001_0000),
         CK::Invisible => AttributedChar::invisible(),
+        CK::InvisibleFlags => mk(b'Z' as u32, 9, 4, 0, icy_engine::attribute::INVISIBLE | 0b1_0001),
         CK::TranspFg => mk(220, TRANSPARENT, 3, 0, 0),
         CK::TranspBg => mk(223, 4, TRANSPARENT, 0, 0),
         CK::Attr(a, long) => mk(if long { 0x2591 } else { 0xB0 }, 5, 6, 0, a),
     }
 }
 
-const KINDS: [CK; 10] = [CK::Short, CK::LongChar(0x100), CK::LongChar(0xD7FF), CK::LongChar(0xE000), CK::LongChar(0x10FFFF), CK::LongColour, CK::LongPage, CK::Invisible, CK::TranspFg, CK::TranspBg];
+const KINDS: [CK; 11] = [CK::InvisibleFlags, CK::Short, CK::LongChar(0x100), CK::LongChar(0xD7FF), CK::LongChar(0xE000), CK::LongChar(0x10FFFF), CK::LongColour, CK::LongPage, CK::Invisible, CK::TranspFg, CK::TranspBg];
 
 #[derive(Clone, Debug)]
 struct LSpec {
@@ -55,11 +58,14 @@ struct LSpec {
     transparency: u8,
     font_page: usize,
     rows: Vec<Vec<CK>>,
+    /// 0 a normal layer, 1 an image layer (role Image, one 8x16 RGBA picture), 2 an image layer whose picture was removed (a cell was
+    /// written on its first row)
+    image: u8,
 }
 
 impl LSpec {
     fn base() -> LSpec {
-        LSpec { title: "layer".into(), w: 3, h: 2, ox: 0, oy: 0, flags: 1, mode: 0, color: false, transparency: 0, font_page: 0, rows: vec![vec![CK::Short, CK::Invisible, CK::Short], vec![CK::LongChar(0x2588)]] }
+        LSpec { title: "layer".into(), w: 3, h: 2, ox: 0, oy: 0, flags: 1, mode: 0, color: false, transparency: 0, font_page: 0, rows: vec![vec![CK::Short, CK::Invisible, CK::Short], vec![CK::LongChar(0x2588)]], image: 0 }
     }
     fn build(&self) -> Layer {
         let mut l = Layer::new(self.title.clone(), (self.w, self.h));
@@ -82,11 +88,20 @@ impl LSpec {
         l.properties.is_position_locked = self.flags & 4 != 0;
         l.properties.has_alpha_channel = self.flags & 8 != 0;
         l.properties.is_alpha_channel_locked = self.flags & 16 != 0;
+        if self.image != 0 {
+            l.role = icy_engine::Role::Image;
+            if self.image == 1 {
+                // an image layer holds its picture only (the format stores RGBA data for it)
+                l.lines.clear();
+                let data: Vec<u8> = (0..8 * 16 * 4).map(|i| (i * 7 % 251) as u8).collect();
+                l.sixels.push(icy_engine::Sixel::from_data((8, 16), 1, 1, data));
+            }
+        }
         l
     }
     fn json(&self) -> Value {
         json!({"title": self.title, "size": [self.w, self.h], "offset": [self.ox, self.oy], "flags(visible,locked,pos-locked,alpha,alpha-locked)": self.flags, "mode": self.mode, "color_tag": self.color,
-               "transparency": self.transparency, "default_font_page": self.font_page, "rows": self.rows.iter().map(|r| r.iter().map(|k| format!("{k:?}")).collect::<Vec<_>>()).collect::<Vec<_>>()})
+               "transparency": self.transparency, "default_font_page": self.font_page, "image_layer": (["no", "picture 8x16", "role image, picture removed"][self.image as usize]), "rows": self.rows.iter().map(|r| r.iter().map(|k| format!("{k:?}")).collect::<Vec<_>>()).collect::<Vec<_>>()})
     }
 }
 
@@ -168,6 +183,8 @@ impl DSpec {
                 d.group = SauceString::from("grp");
                 d.buffer_size = b.get_size();
                 if s == 2 {
+                    // a record of an old file
+                    d.creation_time = chrono::NaiveDate::from_ymd_opt(1996, 4, 1).unwrap().and_hms_opt(0, 0, 0).unwrap();
                     d.comments.push(SauceString::from("first comment"));
                     d.comments.push(SauceString::from("second"));
                 }
@@ -233,6 +250,10 @@ fn compare(a: &Buffer, b: &Buffer) -> Option<(String, Value)> {
         (Some(x), Some(y)) => {
             let cx: Vec<String> = x.comments.iter().map(|c| c.to_string()).collect();
             let cy: Vec<String> = y.comments.iter().map(|c| c.to_string()).collect();
+            // (a record that has no date yet - the default value - is dated on save)
+            if x.creation_time != chrono::NaiveDateTime::default() && x.creation_time.format("%Y%m%d").to_string() != y.creation_time.format("%Y%m%d").to_string() {
+                return Some(("sauce-date".into(), json!({"saved": x.creation_time.format("%Y%m%d").to_string(), "loaded": y.creation_time.format("%Y%m%d").to_string()})));
+            }
             if x.title.to_string() != y.title.to_string() || x.author.to_string() != y.author.to_string() || x.group.to_string() != y.group.to_string() || cx != cy {
                 return Some(("sauce".into(), json!({"saved": [x.title.to_string(), x.author.to_string(), x.group.to_string()], "loaded": [y.title.to_string(), y.author.to_string(), y.group.to_string()], "comments": [cx, cy]})));
             }
@@ -249,7 +270,16 @@ fn compare(a: &Buffer, b: &Buffer) -> Option<(String, Value)> {
                    "alpha_locked": l.properties.is_alpha_channel_locked, "transparency": l.transparency, "offset": [l.get_base_offset().x, l.get_base_offset().y],
                    "size": [l.get_width(), l.get_height()], "default_font_page": l.default_font_page})
         };
-        let (px, py) = (props(x), props(y));
+        let (mut px, mut py) = (props(x), props(y));
+        if x.role == icy_engine::Role::Image && x.sixels.is_empty() {
+            // role Image without a picture is not a state the format knows: the cells are what has to survive
+            px["role"] = json!("-");
+            py["role"] = json!("-");
+        }
+        let pics = |l: &Layer| l.sixels.iter().map(|s| (s.position, s.get_width(), s.get_height(), s.picture_data.clone())).collect::<Vec<_>>();
+        if pics(x) != pics(y) {
+            return Some(("layer-picture".into(), json!({"layer": i, "saved": x.sixels.len(), "loaded": y.sixels.len()})));
+        }
         if px != py {
             let field = px.as_object().unwrap().keys().find(|k| px[*k] != py[*k]).cloned().unwrap_or_default();
             return Some((format!("layer-property:{field}"), json!({"layer": i, "saved": px, "loaded": py})));
@@ -362,6 +392,12 @@ fn dims() -> Vec<Dim> {
         Dim { name: "colour tag", n: 2, apply: |d, v| t(d).color = v == 1 },
         Dim { name: "transparency", n: 3, apply: |d, v| t(d).transparency = [0, 1, 255][v] },
         Dim { name: "default font page", n: 3, apply: |d, v| t(d).font_page = [0, 255, 300][v] },
+        Dim { name: "image layer", n: 6, apply: |d, v| {
+            let (img, ox, oy) = [(1u8, 0, 0), (1, 1, 1), (1, -1, 0), (1, 3, 2), (1, 0, -1), (2, 0, 0)][v];
+            t(d).image = img;
+            t(d).ox = ox;
+            t(d).oy = oy;
+        } },
         Dim { name: "title", n: 5, apply: |d, v| t(d).title = ["".to_string(), "a".to_string(), "\u{fc}\u{20ac}\u{1d11e}".to_string(), "x".repeat(300), "nul\0inside".to_string()][v].clone() },
         Dim { name: "buffer type", n: 5, apply: |d, v| d.buffer_type = v as u8 },
         Dim { name: "ice mode", n: 3, apply: |d, v| d.ice = v as u8 },
@@ -383,11 +419,7 @@ fn valid(d: &DSpec) -> bool {
     if d.uses_page_300() && d.fonts != 2 {
         return false;
     }
-    for l in &d.layers {
-        if l.font_page != 0 && d.fonts != 2 {
-            return false;
-        }
-    }
+    // (a layer's default font page is the page of the cells it does not hold: no cell references it, it needs no font)
     // the preview renderer resolves colours through the palette; long colour cells need the 300 colour palette
     if d.palette != 3 && d.layers.iter().any(|l| l.rows.iter().any(|r| r.contains(&CK::LongColour))) {
         return false;
@@ -410,7 +442,7 @@ struct Icy {
 }
 
 fn all_rows() -> Vec<Vec<CK>> {
-    let kinds: Vec<CK> = vec![CK::Short, CK::LongChar(0x100), CK::LongColour, CK::LongPage, CK::Invisible, CK::TranspFg, CK::TranspBg];
+    let kinds: Vec<CK> = vec![CK::Short, CK::LongChar(0x100), CK::LongColour, CK::LongPage, CK::Invisible, CK::InvisibleFlags, CK::TranspFg, CK::TranspBg];
     let mut out: Vec<Vec<CK>> = vec![vec![]];
     let mut cur: Vec<Vec<CK>> = vec![vec![]];
     for _ in 0..4 {
